@@ -23,7 +23,7 @@
 //     also bare with named results), `continue`, `panic(…)`, calls of translated functions, and the loops
 //     `for i := a; i < b; i++` (also `<=`, and `i--` with `>=`, `>`; `i = a` for an outer variable; the bound must not be
 //     changed by the body, `i` must not be assigned in it) and `for i, v := range xs` / `range xs[k:]` (the body must not
-//     write xs). A loop is `loopN` / `loopRange` of the prelude applied to a body `index → carried → R (Ctl carried ρ)`:
+//     write xs). A loop is `loopN` of the prelude applied to a body `index → carried → R (Ctl carried ρ)`:
 //     the carried tuple = the outer variables the body assigns, ordered by (Lean) type, then by declaration; `Ctl.ret r` = `return` in the body.
 //   - an `if` none of whose branches can `return` / `continue` is a merge `let _m ← if … ; let v := _m.k`; otherwise the
 //     statements after it are continued in each branch that falls through.
@@ -40,6 +40,15 @@
 //
 // Assignments are shadowing `let`s in program order, so renaming a local, adding a temporary or swapping independent pure
 // assignments yields a definitionally equal (or `simp`-equal) term.
+//
+// NORMALISATIONS (work package R1; equal programs written differently give the same term):
+//   - desugar.go: `if init; cond {…}` ↦ `{ init; if cond {…} }`; `switch` (no `fallthrough` / `break`) ↦ the if-chain it is defined to be;
+//   - ONE loop form: `for i, v := range xs {…}` is rendered as `for i := 0; i < len(xs); i++ { v := xs[i]; … }` (`loopN`; `loopRange`
+//     stays in the prelude for the lemma `range_loopN0` of OW/Proofs/GenIdx.lean that turns the one into the other);
+//   - `if a && b {X} else {Y}` / `if a || b {…}` whose right operand can panic ↦ the nested `if`s that evaluate b only when a does
+//     not decide (Go's short-circuit evaluation): three early returns and one merged condition give the same term;
+//   - `xs[i], ys[i] = f(…)` (index operands free of panics), and `p.F = xs` after the last index write to xs (outside every loop) are
+//     in the subset; a function pulled in only as a callee (not a root of the table) is tagged `@[gen_unfold]` (OW/Gen/Attr.lean).
 package main
 
 import (
@@ -156,6 +165,7 @@ func (w *world) load(dir string) *pkg {
 		if err != nil {
 			continue // a file that does not parse cannot contribute a function; the Go build reports it
 		}
+		desugarFile(f) // if-with-init and switch statements become blocks and if-chains (desugar.go)
 		p.files[filepath.Base(fn)] = f
 		for _, d := range f.Decls {
 			if fd, ok := d.(*ast.FuncDecl); ok {
@@ -208,6 +218,7 @@ func imports(f *ast.File) map[string]string {
 }
 
 const prelude = `import OW.Num
+import OW.Gen.Attr
 /-
 GENERATED by harness/cmd/owtransidx from the Go source (data/, util/slice, util/m, conv, io/hdf5_util.go, util/fn) — do not
 edit; regenerated on every run. One definition per Go function, in the monad ` + "`R = Except String`" + ` (a Go panic is
@@ -342,7 +353,11 @@ func main() {
 				b.WriteString(s.text + "\n")
 			}
 		}
-		b.WriteString(f.text + "\n")
+		text := f.text
+		if !f.root { // a function pulled in as a callee only: the tie theorems unfold it with `simp only [gen_unfold]`, without naming it
+			text = strings.Replace(text, " -/\ndef ", " -/\n@[gen_unfold] def ", 1)
+		}
+		b.WriteString(text + "\n")
 		tied = append(tied, strconv.Quote(f.leanName))
 	}
 	var reps []funcReport
